@@ -9,6 +9,8 @@ import (
 	openfgav1 "github.com/openfga/api/proto/openfga/v1"
 	"google.golang.org/protobuf/proto"
 
+	"github.com/openfga/language/pkg/go/graph"
+
 	"verif/core"
 	"verif/gen"
 	"verif/ref"
@@ -22,6 +24,7 @@ func wgModels(ctx *core.Ctx, f func(i int, tm gen.Tagged) bool) {
 	// special families first (they carry the vacuity guards), then the two-relation space simplest first
 	extra := gen.TTUDefectModels()
 	extra = append(extra, gen.InterlockModels()...)
+	extra = append(extra, gen.SameTargetModels()...)
 	nSpecial := len(extra)
 	extra = append(extra, gen.ThreeRelModels(ctx.Thorough())...)
 	extra = append(extra, gen.NestedModels()...)
@@ -66,7 +69,7 @@ func wgModels(ctx *core.Ctx, f func(i int, tm gen.Tagged) bool) {
 
 const wgRule = "graph-model alphabet: types user, group (terminal), folder {a: [user], b: [group, user:*]}, doc {a, b, p} with a and b ranging over every leaf " +
 	"(direct assignment with 3 (quick) / 11 (thorough) restriction lists incl. wildcards, conditions, usersets of self/other/folder; computed self/other; TTU self/other over p) " +
-	"and every union / intersection / exclusion of two leaves, x 3 tupleset variants p in {[doc],[folder],[doc,folder]}; plus the TTU-defect family, the interlocking-cycles family (direct assignments mixing a terminal type, the relation's own userset and its neighbours' usersets in every order, with and without TTUs; two and three relations), three-relation models rich in cycles and nested / three-operand rewrites " +
+	"and every union / intersection / exclusion of two leaves, x 3 tupleset variants p in {[doc],[folder],[doc,folder]}; plus the TTU-defect family, the interlocking-cycles family (direct assignments mixing a terminal type, the relation's own userset and its neighbours' usersets in every order, with and without TTUs; two and three relations), the same-target family (one operator reaching a relation by a rewrite or TTU edge and by a direct userset edge, in both operand orders, with conditions), three-relation models rich in cycles and nested / three-operand rewrites " +
 	"(quick: every 4th). Each model is built under every map-iteration schedule within the budgets: depth-first start orders fully permuted for graphs with <= 5 (quick) / <= 6 (thorough) relation and operator nodes " +
 	"(type and wildcard nodes pinned last there), every single root deviation (quick) / every pair (thorough) otherwise; every single inner-map deviation; thorough: one root x one inner deviation and two inner deviations. "
 
@@ -235,7 +238,75 @@ func c05Run(ctx *core.Ctx) {
 
 // ---- C06 ------------------------------------------------------------------------
 
+// c06BuilderReuse: one builder value used for several models in a row ("repeated invocations in one process"):
+// the result for the later model must be what a fresh builder gives. All ordered pairs over a model subset that
+// mixes two- and three-relation models, TTU defects and cyclic models.
+func c06BuilderReuse(ctx *core.Ctx) {
+	var pool []gen.Tagged
+	sp := gen.NewGraphSpace(false)
+	for i := 0; i < sp.Size(); i += sp.Size()/40 + 1 {
+		pool = append(pool, sp.At(i))
+	}
+	three := gen.ThreeRelModels(false)
+	for i := 0; i < len(three); i += len(three)/25 + 1 {
+		pool = append(pool, three[i])
+	}
+	td := gen.TTUDefectModels()
+	for i := 0; i < len(td); i += 5 {
+		pool = append(pool, td[i])
+	}
+	il := gen.InterlockModels()
+	for i := 0; i < len(il); i += len(il)/10 + 1 {
+		pool = append(pool, il[i])
+	}
+	type fresh struct {
+		rg   *ref.WG
+		dump string
+	}
+	fr := make([]fresh, len(pool))
+	for i, tm := range pool {
+		rg := ref.BuildWG(tm.M)
+		fr[i] = fresh{rg, wgDump(rg, wgBuild(ref.ToProto(tm.M)))}
+	}
+	k := 0
+	for i := range pool {
+		for j := range pool {
+			k++
+			if !ctx.Mine(k) {
+				continue
+			}
+			ctx.Trans(1)
+			b := graph.NewWeightedAuthorizationModelGraphBuilder()
+			var o *wgObs
+			func() {
+				defer func() {
+					if p := recover(); p != nil {
+						o = &wgObs{panic: p, verdict: "panic"}
+					}
+				}()
+				_, _ = b.Build(ref.ToProto(pool[i].M))
+				g, err := b.Build(ref.ToProto(pool[j].M))
+				o = &wgObs{g: g, err: err, verdict: "accepted"}
+				if err != nil {
+					o.verdict = "rejected"
+				}
+			}()
+			d := o.verdict
+			if o.verdict == "accepted" {
+				d = wgDump(fr[j].rg, o)
+			}
+			if d != fr[j].dump {
+				c := &wgCase{Tag: pool[j].Tag, Model: pool[j].M, Extra: "after building on the same builder: " + pool[i].Tag}
+				ctx.Violation("result-depends-on-earlier-build", fmt.Sprintf("a builder that has built [%s] before gives another result for [%s] than a fresh builder", pool[i].Tag, pool[j].Tag), c, fr[j].dump, d)
+				return
+			}
+			ctx.Flag("c06:builder-reuse")
+		}
+	}
+}
+
 func c06Run(ctx *core.Ctx) {
+	defer c06BuilderReuse(ctx)
 	wgModels(ctx, func(i int, tm gen.Tagged) bool {
 		ctx.Eval(1)
 		rg := ref.BuildWG(tm.M)
@@ -445,12 +516,13 @@ func init() {
 		ID: "C06",
 		Rule: wgRule + "Differential oracle: identical verdict and identical canonical dump (weights, wildcard sets, edge kinds, conditions; operators identified structurally) on all schedules; " +
 			"also under every permutation of the type-definition list, and identical relation weights under every permutation of the operands of each union/intersection. " +
+			"Repeated invocations: every ordered pair over ~90 mixed models built in a row on ONE builder value - the second result must equal a fresh builder's. " +
 			"Concurrent builds are covered by C13's interleaving exploration. states = distinct dumps, non-trivial = distinct models",
 		Assume:    wgAssume,
 		Technique: "exhaustive exploration of map-iteration schedules and input permutations with a differential oracle",
 		Run:       c06Run,
 		Finish: func(r *core.Result) error {
-			for _, f := range []string{"map-sites-reached", "c06:accepted", "c06:rejected", "c06:type-permutations", "c06:commuted"} {
+			for _, f := range []string{"map-sites-reached", "c06:accepted", "c06:rejected", "c06:type-permutations", "c06:commuted", "c06:builder-reuse"} {
 				if !r.Flags[f] {
 					return fmt.Errorf("C06: guard %q never exercised", f)
 				}
